@@ -36,6 +36,9 @@ def strategy(tier):
         'inc': st.integers(0, 5),
         'sets': st.lists(st.tuples(st.sampled_from(REFKEYS), st.integers(0, 5)), max_size=3).map(lambda l: [list(x) for x in l]),
         'minimize': st.booleans(),
+        # (RCounter only) the resolver fails for this writer's state with this exception type; the writers after it
+        # are resolved normally again
+        'raise': st.sampled_from([None, None, None, None, 'AttributeError', 'RuntimeError', 'KeyError', 'TypeError']),
     })
     return st.fixed_dictionaries({
         'kind': st.sampled_from(['fs', 'fs', 'demo', 'demo-base']),
@@ -248,6 +251,8 @@ def execute(case):
             ws.append((wspec, tmw, cw, o))
         for wspec, tmw, cw, o in ws:
             o.n = o.n + wspec['inc']
+            if wspec.get('raise') and variant == 'RCounter' and wspec is not case['writers'][0]:
+                o.x_raise = wspec['raise']      # (never committed: such a writer always conflicts)
             for key, ti in wspec['sets']:
                 fmt = key.split('_')[1]
                 pool = cw.get_connection('two').root() if fmt == 'x' else cw.root()
@@ -280,7 +285,14 @@ def execute(case):
                 tids.append(db.storage.lastTransaction())
                 first = False
                 continue
-            if variant != 'RCounter':
+            failing = variant == 'RCounter' and bool(wspec.get('raise')) and wspec is not case['writers'][0]
+            if failing and len(vclasses.RESOLVE_LOG) != 1 and not ok:
+                out.fail((PROPERTY, 'resolution', 'resolver-call-count'),
+                         'resolver called %d times for a conflict whose resolution fails' % len(vclasses.RESOLVE_LOG))
+                break
+            if failing:
+                out.label('resolver-raised-' + wspec['raise'])
+            if variant != 'RCounter' or failing:
                 # no resolver / not importable / resolver fails: conflict, nothing stored
                 if ok:
                     out.fail((PROPERTY, 'unresolvable', 'committed'),
